@@ -457,6 +457,69 @@ def retryWritesOld (spare : Nat) (tcp : Bool) (buf packed part : Bytes) : Option
   | none => none
   | some r => some (sentReq r, (overwrite r.2 part).take r.1)
 
+/-! ## The second receive buffer of the UDP path: control data (round 4)
+
+`netext.sessionPacketConn.ReadFromSession` takes a pooled 40-byte buffer `oob`, lets
+`ReadMsgUDP(b, oob)` write the control messages of the datagram into a prefix of it (`oobn` bytes)
+and parses `oob[:oobn]` for the original destination address: the local address the response is
+sent from and dedicated-address profiles are found by. -/
+
+/-- The slice handed to `origLAddr`, and the pooled control buffer afterwards. -/
+def recvOOB (oob ctrl : Bytes) : Bytes × Bytes :=
+  ((overwrite oob ctrl).take (min ctrl.length oob.length), overwrite oob ctrl)
+
+/-- A variant that parses the whole pooled buffer (used only for the counter-example). -/
+def recvOOBWhole (oob ctrl : Bytes) : Bytes × Bytes :=
+  (overwrite oob ctrl, overwrite oob ctrl)
+
+/-- The pool of control buffers after a history of datagrams (`Get`, read, `Put`; with one buffer
+in circulation this is the worst case for residue). -/
+def runOOB (oob : Bytes) : List Bytes → Bytes
+  | [] => oob
+  | c :: rest => runOOB (recvOOB oob c).2 rest
+
+/-! ## The whole forwarding chain for one client message (round 4)
+
+A client message is received on path `p`, decoded, turned into an upstream request, packed into the
+pooled upstream buffer (`packReq`), written, and the upstream's reply is read into that very buffer
+and decoded.  `toReq` (decode the slice, repack the request; `none`: the slice does not decode) and
+`ups` (the upstream: a function of the bytes it receives) are parameters. -/
+
+inductive ChainResult
+  | dropped (why : Why)          -- rejected before `Unpack`
+  | undecodable                  -- `Unpack` of the slice failed
+  | errbuf                       -- `packReq` refused the request
+  | exchanged (sent : Bytes) (reply : Outcome)  -- bytes written to the upstream, decode of its reply
+deriving DecidableEq, Repr
+
+def upsPath (tcp : Bool) : Path := if tcp then .upsTcp else .upsUdp
+
+def chain (toReq : Bytes → Option Bytes) (ups : Bytes → Bytes) (spare : Nat) (tcp : Bool)
+    (s : Server) (p : Path) (pickC pickU : Option Nat) (wire : Bytes) : ChainResult :=
+  match (step s ⟨p, pickC, [], wire⟩).2 with
+  | .reject w => .dropped w
+  | .view v =>
+    match toReq v with
+    | none => .undecodable
+    | some packed =>
+      let s1 := (step s ⟨p, pickC, [], wire⟩).1
+      match packReq spare tcp (takeBuf (s1.cfg.size (upsPath tcp)) (s1.free (upsPath tcp)) pickU).1 packed with
+      | none => .errbuf
+      | some r => .exchanged (sentReq r) (recvOn (upsPath tcp) r.2 [] (ups (sentReq r))).1
+
+/-- The chain as a function of the client's bytes and the configured sizes alone. -/
+def chainSpec (toReq : Bytes → Option Bytes) (ups : Bytes → Bytes) (tcp : Bool)
+    (c : Cfg) (p : Path) (wire : Bytes) : ChainResult :=
+  match spec p (c.size p) wire with
+  | .reject w => .dropped w
+  | .view v =>
+    match toReq v with
+    | none => .undecodable
+    | some packed =>
+      if packed.length + (if tcp then 2 else 0) ≤ c.size (upsPath tcp)
+      then .exchanged (frameReq tcp packed) (spec (upsPath tcp) (c.size (upsPath tcp)) (ups (frameReq tcp packed)))
+      else .errbuf
+
 /-! ## A tiny DNS reader, used only to exhibit witnesses -/
 
 /-- QDCOUNT of a message. -/
